@@ -6,9 +6,11 @@ import (
 	"bytes"
 	"fmt"
 	"net"
+	"strconv"
 	"strings"
 	"sync"
 	"sync/atomic"
+	"syscall"
 	"time"
 
 	"verifharness/refmodel"
@@ -117,6 +119,8 @@ type Node struct {
 	ln    net.Listener
 	c     *Cluster
 	down  bool
+	// reserve is a bound, non-listening socket that keeps the port while the node is down (-1 = none)
+	reserve int
 }
 
 // New starts n nodes on OS-assigned loopback ports.
@@ -128,7 +132,7 @@ func New(n int) (*Cluster, error) {
 			c.Close()
 			return nil, err
 		}
-		nd := &Node{Index: i, ID: fmt.Sprintf("%040x", 0xabc000+i), Addr: ln.Addr().String(), Port: ln.Addr().(*net.TCPAddr).Port, ln: ln, c: c}
+		nd := &Node{Index: i, ID: fmt.Sprintf("%040x", 0xabc000+i), Addr: ln.Addr().String(), Port: ln.Addr().(*net.TCPAddr).Port, ln: ln, c: c, reserve: -1}
 		c.Nodes = append(c.Nodes, nd)
 		go nd.acceptLoop()
 	}
@@ -148,6 +152,10 @@ func (c *Cluster) Close() {
 		ln := n.ln
 		c.mu.Unlock()
 		ln.Close()
+		if n.reserve >= 0 {
+			syscall.Close(n.reserve)
+			n.reserve = -1
+		}
 	}
 	for _, nc := range live {
 		nc.close(false)
@@ -173,8 +181,15 @@ func (c *Cluster) SetDown(node int, down bool) error {
 		n.down = true
 		c.mu.Unlock()
 		n.ln.Close()
+		// keep the port: a socket that is bound but does not listen refuses connections just like a free port,
+		// and nobody else (another fake node of a parallel case) can take the address meanwhile
+		n.reserve = reservePort(n.Addr)
 		c.CloseDataConns(node, true)
 		return nil
+	}
+	if n.reserve >= 0 {
+		syscall.Close(n.reserve)
+		n.reserve = -1
 	}
 	var ln net.Listener
 	var err error
@@ -194,6 +209,34 @@ func (c *Cluster) SetDown(node int, down bool) error {
 	c.mu.Unlock()
 	go n.acceptLoop()
 	return nil
+}
+
+// reservePort binds addr without listening; it returns the descriptor or -1.
+func reservePort(addr string) int {
+	host, portStr, err := net.SplitHostPort(addr)
+	if err != nil {
+		return -1
+	}
+	ip := net.ParseIP(host).To4()
+	port, _ := strconv.Atoi(portStr)
+	if ip == nil || port == 0 {
+		return -1
+	}
+	fd, err := syscall.Socket(syscall.AF_INET, syscall.SOCK_STREAM, 0)
+	if err != nil {
+		return -1
+	}
+	syscall.SetsockoptInt(fd, syscall.SOL_SOCKET, syscall.SO_REUSEADDR, 1)
+	sa := &syscall.SockaddrInet4{Port: port}
+	copy(sa.Addr[:], ip)
+	for i := 0; i < 50; i++ {
+		if err = syscall.Bind(fd, sa); err == nil {
+			return fd
+		}
+		time.Sleep(2 * time.Millisecond)
+	}
+	syscall.Close(fd)
+	return -1
 }
 
 // SetAcceptClose makes node close every new connection right after accepting it (on = false restores it).
